@@ -103,9 +103,6 @@ func newEngine() *promql.Engine {
 
 const evalTs = 1000
 
-// shape key of the finding "HistogramQuantile interpolates in the last bucket when Sum is NaN"
-const shapeNaNSum = "nan-sum-quantile-interpolates-in-last-bucket"
-
 // run evaluates expr as an instant query and returns the single float result.
 func run(ng *promql.Engine, q storage.Queryable, expr string) (v float64, err error) {
 	defer func() {
@@ -403,6 +400,13 @@ func nativeCorpus() []ncase {
 	// issue-16578 style: NaN observations
 	l = append(l, ncase{corpus: "nan-obs", h: &histogram.FloatHistogram{Schema: 0, Count: 10, Sum: math.NaN(),
 		PositiveSpans: []histogram.Span{{Offset: 0, Length: 2}}, PositiveBuckets: []float64{3, 4}}})
+	// regression (fixed by e11e8e804f): witness of C32_quantile_old_refuted — custom buckets (0,1]:3,
+	// (1,2]:4, three NaN observations; the old code interpolated in the last bucket
+	l = append(l, ncase{corpus: "nan-sum-old-witness", h: &histogram.FloatHistogram{Schema: histogram.CustomBucketsSchema, Count: 10, Sum: math.NaN(),
+		CustomValues: []float64{0, 1, 2}, PositiveSpans: []histogram.Span{{Offset: 1, Length: 2}}, PositiveBuckets: []float64{3, 4}}})
+	// same with an empty trailing bucket (the old code returned +Inf)
+	l = append(l, ncase{corpus: "nan-sum-old-empty-tail", h: &histogram.FloatHistogram{Schema: 0, Count: 12, Sum: math.NaN(),
+		PositiveSpans: []histogram.Span{{Offset: 0, Length: 3}}, PositiveBuckets: []float64{3, 4, 0}}})
 	// gap between populated buckets, rank exactly at the boundary (forward / reverse tie)
 	l = append(l, ncase{corpus: "gap-tie", h: &histogram.FloatHistogram{Schema: 0, Count: 8, Sum: 20,
 		PositiveSpans: []histogram.Span{{Offset: 1, Length: 1}, {Offset: 1, Length: 1}}, PositiveBuckets: []float64{4, 4}}})
@@ -656,23 +660,6 @@ func main() {
 		}
 		for _, q := range quantiles(r) {
 			v, _ := promql.HistogramQuantile(q, h.Copy(), "m", posrange.PositionRange{})
-			if math.IsNaN(h.Sum) && h.Count != 0 && q >= 0 && q <= 1 && shape == "ok" {
-				// known finding: with a NaN sum the NaN-detection loop overwrites `bucket`; observable
-				// when the forward search stops before the last iterated bucket
-				rank, cum := q*h.Count, 0.0
-				for i, b := range fw {
-					if b.c == 0 {
-						continue
-					}
-					cum += b.c
-					if cum >= rank {
-						if i < len(fw)-1 {
-							shape = shapeNaNSum
-						}
-						break
-					}
-				}
-			}
 			eng(fmt.Sprintf("histogram_quantile(%s, m)", lit(q)), v, true)
 			qTerms = append(qTerms, "("+qTerm(q)+", "+resTerm(v)+")")
 			qS = append(qS, fmt.Sprintf("%v:%v", q, v))
@@ -746,9 +733,6 @@ func main() {
 		seen[key] = true
 		if !revOK {
 			meta.Hit("reverse-iterator-differs")
-		}
-		if shape == shapeNaNSum {
-			meta.Hit("native-shape:" + shapeNaNSum)
 		}
 		meta.Case(id, desc{Kind: "native:" + kind, Hist: h.String(), Bks: bS, Qs: qS, Fs: fS, Shape: shape, Corpus: c.corpus})
 		meta.Evaluations++
@@ -831,7 +815,7 @@ func main() {
 	for i, c := range classicCorpus() {
 		emitClassic(c, gen.Fork(f.Seed, 2000000+i))
 	}
-	n := f.Count(200, 9000)
+	n := f.Count(170, 6000)
 	for i := 0; i < n; i++ {
 		r := gen.Fork(f.Seed, i)
 		if i%5 < 3 {
